@@ -114,6 +114,12 @@ def value64 (x : Nat) : Option Rat :=
 def value32 (b : Nat) : Option Rat :=
   if exp32 b = 255 then none else some ((scaled32 b : Rat) / (2 : Rat) ^ 1074)
 
+/-- Order key of a binary64/binary32 pattern: sign-magnitude read as an
+integer.  It orders the patterns exactly like the represented values, with
+−0 = +0 (`key64_orders_like_value` in `Props/C05.lean`). -/
+def key64 (x : Nat) : Int := if sign64 x = 1 then -((x % 2 ^ 63 : Nat) : Int) else ((x % 2 ^ 63 : Nat) : Int)
+def key32 (b : Nat) : Int := if sign32 b = 1 then -((b % 2 ^ 31 : Nat) : Int) else ((b % 2 ^ 31 : Nat) : Int)
+
 /-! ## `UInt` wrappers -/
 
 def narrow (d : UInt64) : UInt32 := UInt32.ofNat (narrowNat d.toNat)
